@@ -26,29 +26,11 @@ func checkKeyComparators(w *World, r *Report) {
 			if !ok {
 				return
 			}
-			f := calleeFunc(c)
-			if f == nil || f.Pkg() == nil || f.Pkg().Path() != "sort" || (f.Name() != "Slice" && f.Name() != "SliceStable") || len(c.Call.Args) != 2 {
+			site, ok := w.sortSiteOf(c)
+			if !ok || site.elem == nil || !isReflectValue(site.elem) {
 				return
 			}
-			// the sorted slice holds reflect.Value keys
-			sl := c.Call.Args[0]
-			if mi, ok := sl.(*ssa.MakeInterface); ok {
-				sl = mi.X
-			}
-			st, ok := sl.Type().Underlying().(*types.Slice)
-			if !ok || !isReflectValue(st.Elem()) {
-				return
-			}
-			var cmp *ssa.Function
-			switch x := c.Call.Args[1].(type) {
-			case *ssa.MakeClosure:
-				cmp, _ = x.Fn.(*ssa.Function)
-			case *ssa.Function:
-				cmp = x
-			}
-			if cmp == nil {
-				return
-			}
+			cmp := site.cmp
 			n++
 			// (a) constant results only after a comparison of the keys themselves
 			isKeyComparison := func(x ssa.Instruction) bool {
